@@ -44,4 +44,10 @@ package unshare
 //@   assigns T.kill_count, T.kill_last_pid, T.kill_last_sig, P.st, S._all, W._all, FD._all, K._all
 //@   callsite (*Runner).Start: assert @C04 r.NoNewPrivs && r.DropCaps && r.CloneFlags == 906100736 && r.UnshareCgroupAfterSync && !r.Ptrace
 //@   ensures @C09 int(result.Status) == 8 ==> len(result.Error) > 0
+//@   callsite return: assert @C09 uint64(userMem) == uint64(rusage.Maxrss << 10)
+//@   callsite return: assert @C09 int(result.Status) != 8 ==> result.Time == userTime && result.Memory == userMem
+//@   callsite return: assert @C09 int(result.Status) != 8 && uint64(userMem) > uint64(r.Limit.MemoryLimit) ==> int(result.Status) == 3
+//@   callsite return: assert @C09 int(result.Status) != 8 && uint64(userMem) <= uint64(r.Limit.MemoryLimit) && int64(userTime) > int64(r.Limit.TimeLimit) ==> int(result.Status) == 2
+//@   callsite return: assert @C09 int(result.Status) != 8 && uint64(userMem) <= uint64(r.Limit.MemoryLimit) && int64(userTime) <= int64(r.Limit.TimeLimit) && ws_exited(uint32(wstatus)) ==> int(result.Status) == status_of_exit(ws_exitcode(uint32(wstatus))) && result.ExitStatus == ws_exitcode(uint32(wstatus))
+//@   callsite return: assert @C09 int(result.Status) != 8 && uint64(userMem) <= uint64(r.Limit.MemoryLimit) && int64(userTime) <= int64(r.Limit.TimeLimit) && ws_signaled(uint32(wstatus)) ==> int(result.Status) == status_of_signal(ws_termsig(uint32(wstatus))) && result.ExitStatus == ws_termsig(uint32(wstatus))
 //@   loop 0: invariant r == old(r) && int(status) == 1 && cancel != nil
